@@ -93,16 +93,25 @@ func main() {
 						points = append(points, d)
 					}
 				}
-				limit := 24
-				if thorough {
-					limit = len(points)
-				}
+				// every engine hook and every create/close/update/abort/tombstone call is delayed once; of the many
+				// Write calls a seeded handful (all of them in the thorough tier)
 				rng.Shuffle(len(points), func(a, b int) { points[a], points[b] = points[b], points[a] })
-				for i, d := range points {
-					if i >= limit {
-						break
+				writes := 0
+				for _, d := range points {
+					if strings.HasPrefix(d.Point, "store.write") {
+						writes++
+						if !thorough && writes > 6 {
+							continue
+						}
 					}
 					runOne(wp.WithDelays(p, d))
+					// a caller held between its stopped-check and its send races Stop through a select whose ready
+					// cases are picked at random: look at that window a few more times
+					if d.Point == "ingest.checked" || d.Point == "ingest.sent" {
+						for k := 0; k < 3; k++ {
+							runOne(wp.WithDelays(p, d))
+						}
+					}
 				}
 				if thorough {
 					for k := 0; k < 40 && len(points) > 1; k++ {
